@@ -5,11 +5,12 @@
    evaluation because states only move by the legal steps of Reach.v. *)
 From Coq Require Import Lia List Bool Arith.
 From BpafModel Require Import Wf.
-From BpafLemmas Require Import Tac EvalEq Find Reach LoopLaws.
+From BpafLemmas Require Import Tac EvalEq Find Reach LoopLaws Ledger NoLoss C05Lemmas Exact.
 Import ListNotations.
 
 Definition scope_ok (s : state) : Prop := sc_start s <= sc_end s /\ sc_end s <= length (ist s).
-Definition G (s : state) : Prop := bounded s /\ scope_ok s.
+(* well-formed states: the ledger is bounded, the scope lies inside it, `remaining` counts exactly *)
+Definition G (s : state) : Prop := bounded s /\ scope_ok s /\ exact s.
 
 Lemma step_scope K s s' : step K s s' -> scope_ok s -> scope_ok s'.
 Proof.
@@ -28,8 +29,9 @@ Proof. induction 1 as [s|s1 s2 s3 R IH St]; intros H; [exact H|]. eapply step_sc
 
 Lemma reach_G K s s' : reach K s s' -> G s -> G s' /\ items s' = items s.
 Proof.
-  intros R [Hb Hs]. destruct (reach_bounded K s s' R Hb) as [B I]. split; [split; [exact B|]|exact I].
-  eapply reach_scope_ok; eauto.
+  intros R (Hb & Hs & He). destruct (reach_bounded K s s' R Hb) as [B I]. split; [split; [exact B|split]|exact I].
+  - eapply reach_scope_ok; eauto.
+  - eapply reach_exact; eauto.
 Qed.
 
 (* a result that is a value or an error *)
@@ -249,14 +251,14 @@ Qed.
 
 (* ------------------------------------------------------------------ commands *)
 Lemma take_cmd_hit word s s1 : G s -> take_cmd word s = (true, s1) ->
-  exists cur, current s1 = Some cur /\ cur <= sc_end s1 /\ sc_end s1 <= length (ist s1).
+  exists cur, current s1 = Some cur /\ cur < sc_end s1 /\ sc_end s1 <= length (ist s1).
 Proof.
-  intros [Hb [H1 H2]] H. unfold take_cmd in H.
+  intros [Hb [[H1 H2] _]] H. unfold take_cmd in H.
   destruct (first_item_ix s) as [ix|] eqn:F; [|discriminate].
   apply find_item_some in F. destruct F as [Hin _].
   unfold in_scope in Hin. apply andb_prop in Hin. destruct Hin as [_ Hlt]. apply Nat.ltb_lt in Hlt.
   assert (E : forall w, (if beqb w word then (true, set_current (sremove (KCmd word) ix s) (Some ix)) else (false, set_current s None)) = (true, s1) ->
-              exists cur, current s1 = Some cur /\ cur <= sc_end s1 /\ sc_end s1 <= length (ist s1)).
+              exists cur, current s1 = Some cur /\ cur < sc_end s1 /\ sc_end s1 <= length (ist s1)).
   { intros w Hw. destruct (beqb w word); [|discriminate]. inversion Hw; subst. exists ix. cbn.
     unfold sremove. destruct (in_scope s ix && _); cbn; [rewrite LoopLaws.update_nth_length|]; repeat split; lia. }
   destruct (nth_error (items s) ix) as [[c adj os|l adj os|w|w|w]|]; try discriminate; try (apply (E _ H)).
@@ -264,7 +266,7 @@ Proof.
 Qed.
 
 Lemma take_cmd_any_hit (K : ckind -> Prop) names : (forall w, In w names -> K (KCmd w)) -> forall s s1, G s -> take_cmd_any names s = (true, s1) ->
-  exists cur, current s1 = Some cur /\ cur <= sc_end s1 /\ sc_end s1 <= length (ist s1).
+  exists cur, current s1 = Some cur /\ cur < sc_end s1 /\ sc_end s1 <= length (ist s1).
 Proof.
   induction names as [|n t IH]; intros Hk s s1 Hg H; cbn in H; [discriminate|].
   pose proof (take_cmd_reach K n s (Hk n (or_introl eq_refl))) as R.
@@ -282,10 +284,11 @@ Proof.
   destruct (take_cmd_any _ s) as [hit s1]. cbn [snd] in R. destruct hit; [|exact I].
   destruct (Hh s1 Hg eq_refl) as (cur & Ec & Hc1 & Hc2). rewrite Ec.
   destruct (reach_G _ s s1 R Hg) as [G1 _].
+  apply Nat.lt_le_incl in Hc1.
   unfold set_scope at 1. apply Nat.leb_le in Hc1. apply Nat.leb_le in Hc2. rewrite Hc1, Hc2. cbn [andb].
   match goal with |- context [run ?x] => assert (G3 : G x) end.
-  { destruct G1 as [[B1 B2] S1]. apply Nat.leb_le in Hc1. apply Nat.leb_le in Hc2.
-    split; [split; cbn; [exact B1|]|split; cbn; lia].
+  { destruct G1 as [[B1 B2] [S1 _]]. apply Nat.leb_le in Hc1. apply Nat.leb_le in Hc2.
+    split; [split; cbn; [exact B1|]|split; [split; cbn; lia|reflexivity]].
     pose proof (count_present_le (ist s1) cur (sc_end s1)). lia. }
   match goal with |- context [run ?x] => pose proof (Ht x G3) as N; destruct (run x) as [r s4] end.
   cbn [fst] in N. destruct r; try contradiction; exact I.
@@ -316,69 +319,4 @@ Proof.
 Qed.
 Lemma run_sub_keepsGr o : keepsGr (run_sub env o).
 Proof. apply (run_reach_keepsGr (fun _ => True)). apply run_sub_reach. apply (proj2 (proj2 kinds_all)). Qed.
-
-Theorem eval_total_all :
-  (forall p, okp p = true -> total (eval env p)) /\
-  (forall ps, okl ps = true -> Forall total (evals env ps)) /\
-  (forall o, oko o = true -> totalr (run_sub env o)).
-Proof.
-  apply parser_plist_oparser_ind; intros; cbn [okp okl oko] in *; try discriminate;
-    try (intros s; autorewrite with evaleq).
-  - apply flag_total; assumption.
-  - apply arg_total; assumption.
-  - apply pos_total.
-  - apply any_total.
-  - apply andb_prop in H0. destruct H0 as [Ha Hs]. destruct adjacent; [discriminate|].
-    apply cmd_total; [apply run_sub_keepsGr|apply H; exact Hs].
-  - (* PCon *) destruct fields as [|q1 [|q2 t]].
-    + rewrite eval_PCon_nil. intros _. exact I.
-    + rewrite eval_PCon_one. specialize (H H0). rewrite evals_cons in H. inversion H; subst. auto.
-    + rewrite eval_PCon_many. apply con_total; [apply evals_keepsG|apply H; exact H0].
-  - apply andb_prop in H1. destruct H1. apply or_total; auto.
-  - apply optional_total; [apply eval_keepsG|auto].
-  - apply many_total; [apply eval_keepsG|auto].
-  - apply some_total; [apply eval_keepsG|auto].
-  - apply many_total; [apply eval_keepsG|auto].
-  - apply count_total; [apply eval_keepsG|auto].
-  - apply last_total; [apply eval_keepsG|auto].
-  - apply fallback_with_total; auto.
-  - apply fallback_with_total; auto.
-  - apply guard_total; auto.
-  - apply parse_total; auto.
-  - apply map_total; auto.
-  - apply hide_total; auto.
-  - apply H; auto.
-  - apply H; auto.
-  - intros _. exact I.
-  - intros _. destruct r; exact I.
-  - intros _. exact I.
-  - apply H; auto.
-  - rewrite evals_nil. constructor.
-  - apply andb_prop in H1. destruct H1. rewrite evals_cons. constructor; auto.
-  - apply andb_prop in H0. destruct H0 as [Hp Hi]. intros Hg. rewrite run_sub_eq.
-    pose proof (H Hp s Hg) as N. destruct (eval env p s) as [r s1]. apply run_sub_body_total; assumption.
-Qed.
 End WithEnv.
-
-(* ------------------------------------------------------------------ a whole run *)
-Lemma construct_G sf sa name argv : G (fst (construct sf sa name argv)).
-Proof.
-  split; [apply construct_bounded|].
-  unfold construct, scope_ok. destruct (t_marker (tokenize sf sa argv)) as [ix|]; cbn;
-    rewrite ?LoopLaws.update_nth_length, ?repeat_length; lia.
-Qed.
-
-Definition normal (o : outcome) : Prop := match o with OutPanic _ | OutFuel => False | _ => True end.
-
-(* C04: every definition without `adjacent`, on every vector, in every environment *)
-Theorem run_total feat env o name argv :
-  oko o = true -> normal (run_inner feat env o name argv).
-Proof.
-  intros Hok. unfold run_inner, run_inner_state, initial_state.
-  destruct (short_tables o) as [sf sa]. pose proof (construct_G sf sa name argv) as Hg.
-  destruct (construct sf sa name argv) as [st amb]. cbn [fst] in Hg.
-  destruct amb as [[ix sh]|]; [exact I|].
-  pose proof (proj2 (proj2 (eval_total_all env)) o Hok st Hg) as N.
-  destruct (run_sub env o st) as [r s']. cbn [fst] in *. destruct r as [v|[h|c|m]|w|]; try contradiction; exact I.
-Qed.
-Print Assumptions run_total.
